@@ -6,7 +6,4 @@
 mod harness;
 
 #[cfg(kani)]
-mod generated;
-
-#[cfg(kani)]
 mod pb;
